@@ -1,6 +1,7 @@
 """C06 — comments preserved: text of every comment survives (kernel level)."""
 from mirsym import models_typst as T
 from . import comments, lists, flows, chains, mathargs, imports
+from .common import validate_corpus
 
 EXPLANATION = (
     "Bounded symbolic execution (MIR->SMT, z3) of pretty/comment.rs: for every block comment '/*' + up to M code points + '*/' the "
@@ -31,6 +32,10 @@ def run(S):
     imports.report(S, 'C06', f5)
     f3 = chains.explore(S, want=('C06',))
     chains.report(S, 'C06', f3)
+    validate_corpus(S, 'lists', [l for l, _ in f2 if l.startswith('C06:')], lambda: lists.native_sweep(S, 'C06', all_hits=True))
+    validate_corpus(S, 'mathargs', [l for l, _ in f4 if l.startswith('C06:')], lambda: mathargs.native_sweep(S, 'C06'))
+    validate_corpus(S, 'imports', [l for l, _ in f5 if l.startswith('C06:')], lambda: imports.native_sweep(S, 'C06'))
+    validate_corpus(S, 'chains', [l for l, _ in f3 if l.startswith('C06:')], lambda: chains.native_sweep(S, 'C06'))
     S.assumptions += lists.ASSUMPTIONS
     S.assumptions.append('comments inside field accesses only occur in code mode (in markup/math the lexer ends the embedded expression at the comment)')
     S.assumptions += comments.ASSUMPTIONS
